@@ -487,6 +487,11 @@ func runC10(r *R) {
 	} else {
 		r.addS("C10-R4", arv+".blkRe", "regex literal", "-", okIf(regexCanon(lit) == regexCanon(`^ [0-9a-f]{32}\+\d+`)), "literal "+lit)
 	}
+	if lit, ok := r.W.GlobalRegexLiteral(arv + ".tokRe"); !ok {
+		r.addS("C10-R4", arv+".tokRe", "regex literal", "-", Undecided, "initialiser not found")
+	} else {
+		r.addS("C10-R4", arv+".tokRe", "regex literal", "-", okIf(regexCanon(lit) == regexCanon(` ?[^ ]*`)), "tokeniser ≡ ` ?[^ ]*`: every byte of the manifest (including bare and trailing spaces) belongs to a token and is hashed; literal "+lit)
+	}
 	if outer := r.NeedFn("C10-R4", arv+".PortableDataHash"); outer != nil {
 		ok := false
 		for _, cl := range Closures(outer) {
